@@ -140,7 +140,7 @@ modelled_bits! {
         assert!(out.len() == want, "output does not extend exactly to the end of the last filled bank");
         let i: usize = kani::any();
         kani::assume(i < 96);
-        assert!(!unsafe { DST[i] }, "fill wrote a non-zero bit");
+        assert!(!dst_bit(i), "fill wrote a non-zero bit");
         kani::cover!(f1 && f2 && e1 > e2 && e2 > 0, "two filled banks, first ends last");
         kani::cover!(f1 && s1 == 1, "one-bit filled bank");
         kani::cover!(f2 && s2 == 0, "filled bank of size 0");
